@@ -47,13 +47,13 @@ def gen_refval(rng, pool):
   k = rng.random()
   if k < 0.45 and pool:
     return rng.choice(pool)
-  if k < 0.60:
+  if k < 0.62:
     return rng.randint(1, 8)          # existing or dangling positive id
-  if k < 0.70:
+  if k < 0.74:
     return 0
-  if k < 0.78:
+  if k < 0.84:
     return None
-  if k < 0.86:
+  if k < 0.95:
     return rng.choice(TXT)
   return -rng.randint(1, 9)           # any temp id, possibly never defined
 
@@ -70,7 +70,7 @@ def gen_listval(rng, pool):
     j = rng.random()
     if j < 0.5 and pool:
       out.append(rng.choice(pool))
-    elif j < 0.85:
+    elif j < 0.96:
       out.append(rng.randint(1, 8))
     else:
       out.append(-rng.randint(1, 9))
@@ -135,9 +135,9 @@ def gen_bundle(rng, sch, doc):
         j = rng.random()
         if j < 0.55 and defined[t]:
           ids.append(rng.choice(defined[t]))
-        elif j < 0.85 and existing:
+        elif j < 0.93 and existing:
           ids.append(rng.choice(existing))
-        elif j < 0.93:
+        elif j < 0.97:
           ids.append(-rng.randint(1, 9))                     # possibly a temp id this table never saw
         else:
           ids.append(rng.randint(1, 9))
@@ -186,14 +186,18 @@ class Docs(object):
 
   def reset(self, e, doc):
     env = self.env
-    bundle = []
+    # (not ReplaceTableData: load_table clears reference columns without clearing their back-reference relation,
+    #  and a later removal of a target row then fails inside get_updates_for_removed_target_rows)
+    for t in range(NT):
+      old = env.row_ids(e, tname(t))
+      if old:
+        env.apply(e, [['BulkRemoveRecord', tname(t), old]])
     for t in range(NT):
       rows = doc[t]
-      bundle.append(['ReplaceTableData', tname(t), [i for (i, _r, _l) in rows],
-                     {'A': [0] * len(rows), 'R': [r for (_i, r, _l) in rows],
-                      'L': [None if l is None else ['L'] + list(l) for (_i, _r, l) in rows]}])
-    for b in bundle:
-      env.apply(e, [b])
+      if rows:
+        env.apply(e, [['BulkAddRecord', tname(t), [i for (i, _r, _l) in rows],
+                       {'A': [0] * len(rows), 'R': [r for (_i, r, _l) in rows],
+                        'L': [None if l is None else ['L'] + list(l) for (_i, _r, l) in rows]}]])
     got = self.tables(e)
     want = [[(i, r, l) for (i, r, l) in doc[t]] for t in range(NT)]
     if got != want:
@@ -506,10 +510,41 @@ def has_neg_ref(acts):
   return False
 
 
+def all_refs_declared(acts, sch):
+  declared = {t: set() for t in range(NT)}
+  for a in acts:
+    t = a['t']
+    if a['op'] == 'add':
+      declared[t].update(x for x in a['ids'] if isinstance(x, int) and x < 0)
+    for col, tgt in (('R', sch[t][0]), ('L', sch[t][1])):
+      for v in a[col] or []:
+        for r in (v if isinstance(v, list) else [v]):
+          if isinstance(r, int) and not isinstance(r, bool) and r < 0 and r not in declared[tgt]:
+            return False
+  return True
+
+
+def without_neg_refs(acts):
+  out = copy.deepcopy(acts)
+  for a in out:
+    for col in ('R', 'L'):
+      if a[col] is not None:
+        a[col] = [([r for r in v if not (isinstance(r, int) and r < 0)] if isinstance(v, list)
+                   else (0 if isinstance(v, int) and not isinstance(v, bool) and v < 0 else v)) for v in a[col]]
+  return out
+
+
 def oracle(docs, sch, doc, acts, res):
   if res['outcome'] != 'ok':
     if not res['unchanged']:
       return ('rejected-but-changed', 'the bundle raised %s but left a trace in the document' % res['outcome'])
+    # a bundle whose negative reference ids were all created by an earlier (or the same) add on the target table
+    # must not be rejected because of them: without those references it must be rejected as well
+    if has_neg_ref(acts) and all_refs_declared(acts, sch):
+      res0 = docs.run(sch, doc, without_neg_refs(acts))
+      if res0['outcome'] == 'ok':
+        return ('resolvable-reference-rejected', 'every negative reference id was created by an add of the bundle, yet '
+                'the bundle raises %s (%s); with those references blanked it is accepted' % (res['outcome'], res.get('msg')))
     return None
   if not res.get('meta_same', True):
     return ('metadata-changed', 'a record bundle changed a metadata table')
